@@ -61,6 +61,16 @@ class Iv:
 TOPI = Iv()
 
 
+def _strip_opt(t):
+    """Option-valued comparison operands: phi(c, Some(x), None) / Some(x) compare like x when both are Some."""
+    if t[0] == 'some':
+        return t[1]
+    if t[0] == 'phi' and t[2][0] == 'some' and t[3][0] == 'none':
+        return t[2][1]
+    return t
+
+
+
 def point(x):
     return Iv(x, x, False, False, x != 0)
 
@@ -111,7 +121,7 @@ class FSign:
             o = c[1]
             if not pol:
                 o = {'eq': 'ne', 'ne': 'eq', 'lt': 'ge', 'le': 'gt', 'gt': 'le', 'ge': 'lt'}[o]
-            a, b = c[2]
+            a, b = _strip_opt(c[2][0]), _strip_opt(c[2][1])
             for (x, y, oo) in ((a, b, o), (b, a, {'lt': 'gt', 'le': 'ge', 'gt': 'lt', 'ge': 'le', 'eq': 'eq', 'ne': 'ne'}[o])):
                 if y[0] == 'lit' and isinstance(y[1], (int, float)) and not isinstance(y[1], bool):
                     v = float(y[1])
@@ -188,6 +198,12 @@ class FSign:
                     return r
                 return _mul(self.rng(a[0]), self.rng(a[1]))
             if n == 'div':
+                # x / (x + y) with x, y >= 0 lies in [0, 1]
+                den = a[1]
+                if den[0] == 'op' and den[1] == 'add' and a[0] in den[2]:
+                    other = den[2][1] if den[2][0] == a[0] else den[2][0]
+                    if self.rng(a[0]).nonneg() and self.rng(other).nonneg() and not self.rng(den).contains_zero():
+                        return Iv(0.0, 1.0)
                 x, y = self.rng(a[0]), self.rng(a[1])
                 if y.contains_zero():
                     return TOPI
@@ -252,7 +268,13 @@ class FSign:
                 return point(vals[t[1]])
             return TOPI
         if k == 'phi':
-            return self.rng(t[2]).hull(self.rng(t[3]))
+            fa = FSign([], self.int_lb, self.loops, self.trip_pos)
+            fa.facts = dict(self.facts)
+            fa.learn(t[1], True)
+            fb = FSign([], self.int_lb, self.loops, self.trip_pos)
+            fb.facts = dict(self.facts)
+            fb.learn(t[1], False)
+            return fa.rng(t[2]).hull(fb.rng(t[3]))
         if k in ('some', 'payload'):
             return self.rng(t[1])
         if k == 'fold':
